@@ -244,6 +244,22 @@ func (g *Gen) twin(a, b pcommon.Map) {
 	}
 }
 
+// fieldTwinScope makes b a copy of a that differs in exactly one identity field other than the attributes.
+func (g *Gen) fieldTwinScope(a, b pcommon.InstrumentationScope) (urlDiffers bool) {
+	a.CopyTo(b)
+	switch g.R.Intn(4) {
+	case 0:
+		b.SetName(a.Name() + "'")
+	case 1:
+		b.SetVersion(a.Version() + "'")
+	case 2:
+		b.SetDroppedAttributesCount(a.DroppedAttributesCount() + 3)
+	default:
+		return true
+	}
+	return false
+}
+
 func (g *Gen) nres() int   { return 1 + g.R.Intn(max(1, g.MaxRes)) }
 func (g *Gen) nscope() int { return g.R.Intn(max(1, g.MaxScope) + 1) }
 func (g *Gen) nitems() int { return g.R.Intn(max(1, g.MaxItems) + 1) }
@@ -267,9 +283,27 @@ func (g *Gen) Traces() ptrace.Traces {
 		src := td.ResourceSpans().At(g.R.Intn(td.ResourceSpans().Len()))
 		dst := td.ResourceSpans().AppendEmpty()
 		src.CopyTo(dst)
-		if g.R.Intn(2) == 0 || dst.ScopeSpans().Len() == 0 {
+		switch v := g.R.Intn(5); {
+		case v == 0 && src.ScopeSpans().Len() > 0:
+			// the twin scope sits under the SAME resource and differs in one non-attribute field
+			j := g.R.Intn(src.ScopeSpans().Len())
+			td.ResourceSpans().RemoveIf(func(x ptrace.ResourceSpans) bool { return x == dst })
+			tw := src.ScopeSpans().AppendEmpty()
+			src.ScopeSpans().At(j).CopyTo(tw)
+			if g.fieldTwinScope(src.ScopeSpans().At(j).Scope(), tw.Scope()) {
+				tw.SetSchemaUrl(src.ScopeSpans().At(j).SchemaUrl() + "'")
+			}
+			for k := 0; k < tw.Spans().Len(); k++ {
+				tw.Spans().At(k).SetName(fmt.Sprintf("ftwin-%d", k))
+			}
+			return td
+		case v == 1:
+			dst.Resource().SetDroppedAttributesCount(src.Resource().DroppedAttributesCount() + 5)
+		case v == 2:
+			dst.SetSchemaUrl(src.SchemaUrl() + "'")
+		case v == 3 || dst.ScopeSpans().Len() == 0:
 			g.twin(src.Resource().Attributes(), dst.Resource().Attributes())
-		} else {
+		default:
 			j := g.R.Intn(dst.ScopeSpans().Len())
 			g.twin(src.ScopeSpans().At(j).Scope().Attributes(), dst.ScopeSpans().At(j).Scope().Attributes())
 		}
@@ -343,9 +377,26 @@ func (g *Gen) Logs() plog.Logs {
 		src := ld.ResourceLogs().At(g.R.Intn(ld.ResourceLogs().Len()))
 		dst := ld.ResourceLogs().AppendEmpty()
 		src.CopyTo(dst)
-		if g.R.Intn(2) == 0 || dst.ScopeLogs().Len() == 0 {
+		switch v := g.R.Intn(5); {
+		case v == 0 && src.ScopeLogs().Len() > 0:
+			j := g.R.Intn(src.ScopeLogs().Len())
+			ld.ResourceLogs().RemoveIf(func(x plog.ResourceLogs) bool { return x == dst })
+			tw := src.ScopeLogs().AppendEmpty()
+			src.ScopeLogs().At(j).CopyTo(tw)
+			if g.fieldTwinScope(src.ScopeLogs().At(j).Scope(), tw.Scope()) {
+				tw.SetSchemaUrl(src.ScopeLogs().At(j).SchemaUrl() + "'")
+			}
+			for k := 0; k < tw.LogRecords().Len(); k++ {
+				tw.LogRecords().At(k).SetSeverityText(fmt.Sprintf("ftwin-%d", k))
+			}
+			return ld
+		case v == 1:
+			dst.Resource().SetDroppedAttributesCount(src.Resource().DroppedAttributesCount() + 5)
+		case v == 2:
+			dst.SetSchemaUrl(src.SchemaUrl() + "'")
+		case v == 3 || dst.ScopeLogs().Len() == 0:
 			g.twin(src.Resource().Attributes(), dst.Resource().Attributes())
-		} else {
+		default:
 			j := g.R.Intn(dst.ScopeLogs().Len())
 			g.twin(src.ScopeLogs().At(j).Scope().Attributes(), dst.ScopeLogs().At(j).Scope().Attributes())
 		}
@@ -413,9 +464,26 @@ func (g *Gen) Metrics() pmetric.Metrics {
 		src := md.ResourceMetrics().At(g.R.Intn(md.ResourceMetrics().Len()))
 		dst := md.ResourceMetrics().AppendEmpty()
 		src.CopyTo(dst)
-		if g.R.Intn(2) == 0 || dst.ScopeMetrics().Len() == 0 {
+		switch v := g.R.Intn(5); {
+		case v == 0 && src.ScopeMetrics().Len() > 0:
+			j := g.R.Intn(src.ScopeMetrics().Len())
+			md.ResourceMetrics().RemoveIf(func(x pmetric.ResourceMetrics) bool { return x == dst })
+			tw := src.ScopeMetrics().AppendEmpty()
+			src.ScopeMetrics().At(j).CopyTo(tw)
+			if g.fieldTwinScope(src.ScopeMetrics().At(j).Scope(), tw.Scope()) {
+				tw.SetSchemaUrl(src.ScopeMetrics().At(j).SchemaUrl() + "'")
+			}
+			for k := 0; k < tw.Metrics().Len(); k++ {
+				tw.Metrics().At(k).SetName(fmt.Sprintf("ftwin-%d", k))
+			}
+			return md
+		case v == 1:
+			dst.Resource().SetDroppedAttributesCount(src.Resource().DroppedAttributesCount() + 5)
+		case v == 2:
+			dst.SetSchemaUrl(src.SchemaUrl() + "'")
+		case v == 3 || dst.ScopeMetrics().Len() == 0:
 			g.twin(src.Resource().Attributes(), dst.Resource().Attributes())
-		} else {
+		default:
 			j := g.R.Intn(dst.ScopeMetrics().Len())
 			g.twin(src.ScopeMetrics().At(j).Scope().Attributes(), dst.ScopeMetrics().At(j).Scope().Attributes())
 		}
@@ -621,6 +689,19 @@ func ParentsTraces(n, nres int, with string) ptrace.Traces {
 		ss := rs.ScopeSpans().AppendEmpty()
 		for i := 0; i < per && made < n; i++ {
 			s := ss.Spans().AppendEmpty()
+			if with == "mixed" {
+				// every span needs an id, but each related table stays below its own 65,535 groups
+				switch made % 3 {
+				case 0:
+					s.Attributes().PutBool("a", true)
+				case 1:
+					s.Events().AppendEmpty()
+				default:
+					s.Links().AppendEmpty()
+				}
+				made++
+				continue
+			}
 			if strings.Contains(with, "attr") && !strings.Contains(with, "resattr") || strings.Contains(with, "spanattr") {
 				s.Attributes().PutBool("a", true)
 			}
